@@ -271,12 +271,16 @@ func c17Plot(rs []c17Res, order []int, opts ...Opt) (_ *Plot, err error) {
 		}
 	}()
 	p := New(opts...)
+	// one Result value is re-used for every Add, as a decode loop does (`var r; for dec.Decode(&r) == nil { p.Add(&r) }`):
+	// what the plot shows must not depend on the caller keeping each Result alive and unchanged
+	var r vegeta.Result
 	for _, i := range order {
-		r := rs[i].result()
+		r = rs[i].result()
 		if err := p.Add(&r); err != nil {
 			return nil, err
 		}
 	}
+	r = vegeta.Result{}
 	p.Close()
 	return p, nil
 }
